@@ -110,6 +110,7 @@ structure View where
   schemaKeys : List Str := []          -- element.field_schema_mapping.keys()
   -- opaque externals, evaluated by the harness on the element's value
   idna : Option Str := none            -- domain.encode('idna').decode('ascii'); none = UnicodeError
+  localOk : Option Bool := none        -- local_part_pattern.match(local_part); none = no pattern set
   urlParts : Option (List Str) := none -- urlparse(value.strip()) as 6 strings; none = exception
   httpParts : Option (List PartVal) := none  -- getattr(urlparse(value), part) for the 9 parts
   canon : Option Val := none           -- urlunparse(blanked urlparse(value)); none = exception
@@ -445,9 +446,12 @@ def verdict (v : V) (e : View) : Except Raise Verdict :=
         match splitOnChar '@' addr with
         | [localPart, domain0] =>
           if localPart.isEmpty || localPart.all isSpaceChar then fail "invalid"
-          else match e.idna with
+          -- optional local part validation
+          else if e.localOk == some false then fail "invalid"
+          else match e.idna with                                 -- domain.encode("idna").decode("ascii")
             | none => fail "invalid"                             -- UnicodeError
             | some domain =>
+              -- from here on `domain` is the converted text: the text form `domain0` is not looked at again
               let _ := domain0
               if domain.length > 253 then fail "invalid"
               else if !domainMatches domain then fail "invalid"
